@@ -59,9 +59,13 @@ def oracle(case, rec, all_defaults):
         elif kind == "A":
             out.append(({"kind": "unaudited-slot", "loader": "MethodNode", "slot": "content.func"},
                         f"MethodNode fetched attribute {rest!r} (a name chosen by the archive) from the constructed object; no audited name covers it"))
-        elif kind == "M":
-            out.append(({"kind": "unaudited-slot", "loader": "RandomGeneratorNode" if "numpy.random" in rest else "OperatorFuncNode", "slot": "bit_generator" if "numpy.random" in rest else "__class__"},
+        elif kind == "M" and "numpy.random" not in rest:
+            out.append(({"kind": "unaudited-slot", "loader": "OperatorFuncNode", "slot": "__class__"},
                         f"load resolved {rest.replace('|', '.')} through a module fixed by the code with an attribute chosen by the archive, unaudited"))
+    # numpy.random.<name from the archive> may be looked up, but only bit generator classes may be called
+    for c in rec.get("load_calls") or []:
+        out.append(({"kind": "unaudited-slot", "loader": "RandomGeneratorNode", "slot": "bit_generator"},
+                    f"load CALLED {c}, a name taken from the archive that is not a numpy bit generator class and was never audited"))
     for what, name in rec["load_ledger"]:
         cls = name.rsplit(".", 1)[0] if what == "call" and name.count(".") >= 2 else name
         vouched = (name in T or cls in T) if what != "import" else any(t.startswith(name + ".") for t in T)
@@ -105,14 +109,14 @@ def run(R, only_cases=None):
         R.count("construct:" + ("ran" if r["load"] == "returned" or r["load_events"] else "not-reached"))
         for sig, what in oracle(c, r, all_defaults):
             R.violation(sig, what, {"case": {k: c[k] for k in ("schema", "members", "show")}, "T": r["T"],
-                                    "observed": {k: r.get(k) for k in ("load", "load_type", "load_named_object", "load_events", "load_ledger", "gut")}})
+                                    "observed": {k: r.get(k) for k in ("load", "load_type", "load_named_object", "load_events", "load_calls", "load_ledger", "gut")}})
     R.notes["resolution_events_observed"] = nres
     R.notes["rule"] = ("generated archives (every loader in every child slot, default / trusted / canary / near-miss names, shared and cyclic ids, protocols 0..current+1, "
                        "25% malformed) x trusted in {reported, superset, subset, none, misleading}; loads() runs under resolution wrappers and the canary ledger; "
                        "non-trivial = inspection succeeded or load returned")
     R.notes["uncovered"] = IO.uncovered_kinds(R, snap)
     R.notes["guards"] = ["C01_resolve_vouched covers gettype/_import_obj calls whose names come from the archive; excluded sites, each with a refuted theorem and an open finding: "
-                         "MethodNode content.func (D01), RandomGeneratorNode bit_generator (D03), fixed constructors under a foreign audited name (D04)"]
+                         "MethodNode content.func (D01), fixed constructors under a foreign audited name (D04); the bit-generator name of a RandomGeneratorNode is resolved unaudited but, since the D03 fix, only numpy BitGenerator classes are called (observed: wrapped non-BitGenerator attributes log any call)"]
     for c, r in list(zip(cases, recs))[:3]:
         R.sample({"schema": c["schema"], "trusted": r["T"], "load": r["load"], "resolved": r["load_events"]})
 
